@@ -51,6 +51,7 @@ def wrapper_for(name, variant=0):
     PAD = 3
     sig, pre, call, post, asserts = [], [], [], [], []
     sizes = []
+    place = {}
     for a in ir.args:
         t = a.type
         nm = str(a.name)
@@ -68,6 +69,8 @@ def wrapper_for(name, variant=0):
                 raise Skip("rank")
             L = dims[0]
             mem = a.mem.name() if a.mem else "DRAM"
+            # (start offset of the operand's window in the flat backing array, window length)
+            place[f"d_{nm}"] = {0: (str(PAD), L), 1: (f"({L} + 4) + 2", L), 2: (f"2 * ({L})", L)}[variant]
             if variant == 0:
                 sig.append(f"d_{nm}: {pn}[{L} + {2 * PAD}]")
                 dwin = f"d_{nm}[{PAD}:{PAD} + {L}]"
@@ -101,7 +104,7 @@ def wrapper_for(name, variant=0):
     src = "from exo.platforms.x86 import *\n" + "\n".join(lines) + "\n"
     g = exec_source(src)
     w = g[f"w_{name}"]
-    info = {"sizes": sizes, "src": "\n".join(lines), "is_div": "div" in name, "prefix": any(s in ("bound", "N") for s in sizes)}
+    info = {"sizes": sizes, "src": "\n".join(lines), "is_div": "div" in name, "prefix": any(s in ("bound", "N") for s in sizes), "place": place}
     _cache[key] = (w, info)
     return w, info
 
@@ -140,7 +143,12 @@ def check_case(case):
         for nm, kd, t in kinds:
             if kd in ("tensor", "window", "scalar"):
                 bt = type(t.basetype()).__name__
-                xs = vec[(len(data)) % len(vec)] if isinstance(vec[0], list) else vec
+                # every operand gets its own contents (the drawn vector rotated and shifted per
+                # operand): with identical operands a store that never happens, or a swapped
+                # source, would be invisible
+                j = len(data)
+                r = (5 * j) % len(vec)
+                xs = [v + (0.25 * j if v == v and abs(v) < 1e6 else 0.0) for v in (vec[r:] + vec[:r])]
                 if bt == "UINT16":
                     data[nm] = [int(abs(v) * 997) % 32768 for v in xs]  # no ui16 overflow: x + y stays representable
                 else:
@@ -177,19 +185,35 @@ def check_case(case):
     outs = parse_output(r.stdout)
     nontriv = False
     for (fv, o), got, meta in zip(good, outs, metas):
+        mism = []
         for nm, (n, cty) in meta.items():
             exp, g = o.bufs[nm], got["bufs"][nm]
             tol = {"float": 2e-6, "double": 1e-14}.get(cty)
+            start, length = (int(eval(x, {}, dict(fv["ctrl"]))) for x in info["place"].get(nm, ("0", str(n))))
+            bound = list(fv["ctrl"].values())[0] if info["prefix"] and fv["ctrl"] else None
             for i, (a, b) in enumerate(zip(exp, g)):
                 if a is POISON:
                     continue
                 a = float(a)
                 ok = a == b or (a != a and b != b) or (tol is not None and abs(a - b) <= tol * max(1.0, abs(a), abs(b)))
                 if not ok:
-                    raise Violation(
-                        {"kind": "c-differs-from-body", "instr": name},
-                        f"{where}\ncontrol {fv['ctrl']}, operands {json.dumps(fv['data'])[:600]}\n{nm}[{i}]: Exo body gives {a!r}, intrinsics give {b!r}\n--- emitted call:\n" + "\n".join(l for l in c_text.splitlines() if "_mm" in l or "result" in l)[:800],
-                    )
+                    lane = i - start
+                    if lane < 0 or lane >= length:
+                        cls = "outside-window"
+                    elif bound is not None and lane >= bound:
+                        cls = "masked-off-lane"
+                    else:
+                        cls = "active-lane"
+                    mism.append((cls, nm, i, lane, a, b))
+        if mism:
+            # a deviation in an active lane or outside the operand's window outranks one in a
+            # masked-off lane (the recorded known findings are all of the latter kind)
+            prio = {"outside-window": 0, "active-lane": 1, "masked-off-lane": 2}
+            cls, nm, i, lane, a, b = min(mism, key=lambda m: (prio[m[0]], m[1], m[2]))
+            raise Violation(
+                {"kind": "c-differs-from-body", "instr": name, "where": cls},
+                f"{where}\ncontrol {fv['ctrl']}, operands {json.dumps(fv['data'])[:600]}\n{nm}[{i}] (lane {lane}, {cls}): Exo body gives {a!r}, intrinsics give {b!r}; {len(mism)} element(s) differ\n--- emitted call:\n" + "\n".join(l for l in c_text.splitlines() if "_mm" in l or "result" in l)[:800],
+            )
         distinct = any(len(set(v)) >= 2 for v in fv["data"].values())
         partial = True
         if info["prefix"]:
